@@ -669,7 +669,8 @@ impl<'a, T: Serializable> MemoryMapped<'a> for MappedSlice<'a, T> {
         }
         let slice: &[u64] = map.as_ref();
         let len = slice[offset] as usize;
-        if offset + 1 + len * T::elements() > map.len() {
+        // The length comes from the file and may be arbitrary, so we must not compute `len * T::elements()`.
+        if len > (map.len() - offset - 1) / T::elements() {
             return Err(Error::new(ErrorKind::UnexpectedEof, "The file is too short"));
         }
         let source: &[u64] = &slice[offset + 1 ..];
@@ -768,7 +769,8 @@ impl<'a> MemoryMapped<'a> for MappedBytes<'a> {
         }
         let slice: &[u64] = map.as_ref();
         let len = slice[offset] as usize;
-        if offset + 1 + bits::bytes_to_words(len) > map.len() {
+        // The length comes from the file and may be arbitrary, so we must not compute `bytes_to_words(len)`.
+        if len > bits::words_to_bytes(map.len() - offset - 1) {
             return Err(Error::new(ErrorKind::UnexpectedEof, "The file is too short"));
         }
         let source: &[u64] = &slice[offset + 1 ..];
@@ -855,7 +857,8 @@ impl<'a> MemoryMapped<'a> for MappedStr<'a> {
         }
         let slice: &[u64] = map.as_ref();
         let len = slice[offset] as usize;
-        if offset + 1 + bits::bytes_to_words(len) > map.len() {
+        // The length comes from the file and may be arbitrary, so we must not compute `bytes_to_words(len)`.
+        if len > bits::words_to_bytes(map.len() - offset - 1) {
             return Err(Error::new(ErrorKind::UnexpectedEof, "The file is too short"));
         }
         let source: &[u64] = &slice[offset + 1 ..];
